@@ -95,6 +95,8 @@ def fresh_interpreter_outcomes(case: dict, runs: int = 3) -> List[str]:
 class C02(C01):
     pid = "C02"
     props_module = "CBV.Props.C02"
+    # C02 is about the loop (termination, completeness, order): M-PROP on the schedule as the implementation holds it
+    model_paths = ("prop",)
     modes = [("well", 0.35), ("under", 0.25), ("sandwich", 0.2), ("double", 0.1), ("conflict", 0.1)]
     rule = (
         C01.rule
@@ -102,7 +104,7 @@ class C02(C01):
         "the same script with shifted object addresses (same file / same error required) and a run with permuted "
         "insertion order and re-drawn corner numberings (same outcome class and same count per block direction required)."
     )
-    assumptions = C01.assumptions + [
+    assumptions = C01.PROP_ASSUMPTIONS + [
         "the work-list `undefined_blocks` (a set of small ints) is iterated in ascending order (CPython) — validated by the call trace",
         "a hang is observed as 'no return within 20 s'",
     ]
